@@ -126,8 +126,8 @@ def s_txn1(rep, W, body, opener=WD.T_TXN, rule="S-TXN1", nested_check=True):
         if not d.startswith(WD.STORAGE_TXN + "::"):
             continue
         n += 1
-        recv = pv.arg_terms(bb)[0]
-        rep.ob(rule, (fn, "recv", ordinal_key(body, d, bb)), recv == txn,
+        recv = unmut(pv.arg_terms(bb)[0])      # `txn.as_mut()` handed to a helper makes the local a &mut-borrowed one: same value
+        rep.ob(rule, (fn, "recv", ordinal_key(body, d, bb)), recv == unmut(txn),
                "receiver of %s is %s; must be the operation's single transaction %s" % (d.split("::")[-1], P.show(recv), P.show(txn)),
                where(body, bb))
     if not nested_check:
@@ -339,7 +339,7 @@ def client_term(W, body, txn):
     if len(gcs) != 1:
         return None, None
     bb = gcs[0][0]
-    if pv.arg_terms(bb)[0] != txn:
+    if unmut(pv.arg_terms(bb)[0]) != unmut(txn):
         return None, None
     return ("ok", ("ok", pv.def_term((bb, "T")))), bb
 
@@ -1399,7 +1399,7 @@ def c08(rep, W, rule="C08"):
         rep.fail(rule, (fn, "lookup"), "expected the two comparisons and exactly one get_version_by_parent lookup (found %d)" % len(lk), where(gc))
         return
     lkargs = pv.arg_terms(lk[0][0])
-    rep.ob(rule, (fn, "lookup", "args"), lkargs[0] == txn and m(parent, lkargs[1]) is not None,
+    rep.ob(rule, (fn, "lookup", "args"), unmut(lkargs[0]) == unmut(txn) and m(parent, lkargs[1]) is not None,
            "child lookup is get_version_by_parent(%s) on %s" % (P.show(lkargs[1]), P.show(lkargs[0])), where(gc, lk[0][0]))
     rec = ("ok", ("ok", pv.def_term((lk[0][0], "T"))))
     f = ("VARIANT", ("ok", pv.def_term((lk[0][0], "T"))))
@@ -1611,7 +1611,7 @@ def c10(rep, W, rule="C10"):
         return
     gv_bb = gvs[0][0]
     gva = pv.arg_terms(gv_bb)
-    rep.ob(rule, (fn, "G4", "lookup-args"), gva[0] == txn and m(VID, gva[1]) is not None, "parent link read via get_version(%s) on %s" % (P.show(gva[1]), P.show(gva[0])), where(body, gv_bb))
+    rep.ob(rule, (fn, "G4", "lookup-args"), unmut(gva[0]) == unmut(txn) and m(VID, gva[1]) is not None, "parent link read via get_version(%s) on %s" % (P.show(gva[1]), P.show(gva[0])), where(body, gv_bb))
     gatom = ("VARIANT", ("ok", pv.def_term((gv_bb, "T"))))
     # C10.N (bounded window): the product analysis propagates constants, so a walk governed by a counter with a constant start
     # and constant steps (a `search_len -= 1` counter, a `for _ in (0..N).rev()` range, ...) is unrolled whatever its spelling.
@@ -1645,7 +1645,7 @@ def c10(rep, W, rule="C10"):
            "set_snapshot is reached only when v is not the current snapshot, v equals the walked id and v != NIL; offending: %s" % failing_vals(g, (wbb, "T"), fW)[:1], where(body, wbb))
     wa = pv.arg_terms(wbb)
     wantS = pat.adt("Snapshot", "Snapshot", ("version_id", v), ("timestamp", call("chrono::offset::utc::Utc::now")), ("versions_since", pat.const(val=0)))
-    rep.ob(rule, (fn, "W", "snapshot-record"), wa[0] == txn and m(wantS, wa[1]) is not None,
+    rep.ob(rule, (fn, "W", "snapshot-record"), unmut(wa[0]) == unmut(txn) and m(wantS, wa[1]) is not None,
            "stored record is %s; must be {version_id: v, timestamp: now, versions_since: 0}" % P.show(wa[1]), where(body, wbb))
     rep.ob(rule, (fn, "W", "snapshot-bytes"), m(("param", 4, ANY), wa[2]) is not None, "stored bytes are %s; must be the submitted data" % P.show(wa[2]), where(body, wbb))
     # C10.ITER: the single in-loop assignment of vid
@@ -1712,6 +1712,18 @@ def c10(rep, W, rule="C10"):
                "a decline exit is taken only under: already the snapshot / newer snapshot in window / window exhausted / chain start reached / version missing; offending: %s"
                % bad_[:1], where(body, line=exit_line(body, site)))
     rep.floor(rule, "decline exits", nd, 2, where(body))
+    # a version missing from the chain ("should not happen") is a quiet decline like the others: the client is told success,
+    # never an error -- every exit reachable while the parent lookup reported "no such version" is the unit success
+    miss_bad = []
+    nmiss = 0
+    for site, rt, val, kind in exit_kinds(W, body, lambda t: "x"):
+        if val.get(gatom) != frozenset(["err"]):
+            continue
+        nmiss += 1
+        if is_error_exit(rt) or m(okunit, rt) is None:
+            miss_bad.append("line %d returns %s" % (exit_line(body, site), P.show(rt)[:80]))
+    rep.ob(rule, (fn, "D", "missing-version-is-a-quiet-decline"), nmiss >= 1 and not miss_bad,
+           "when the walked version is not stored the operation declines with Ok(()) (%d such exit(s))%s" % (nmiss, "; but: %s" % miss_bad[:2] if miss_bad else ""), where(body))
 
 
 # =========================================================================== C11
@@ -1772,7 +1784,7 @@ def c11(rep, W, rule="C11"):
         return
     snapid = ("field", ("ok", ("field", client, "snapshot")), "version_id")
     ga = pv.arg_terms(gsd[0][0])
-    rep.ob(rule + ".READ", (fnb, "data-for-stored-id"), ga[0] == txn and ga[1] == snapid,
+    rep.ob(rule + ".READ", (fnb, "data-for-stored-id"), unmut(ga[0]) == unmut(txn) and ga[1] == snapid,
            "snapshot bytes are fetched with get_snapshot_data(%s) on %s; must be the id in the client record read by the same transaction" % (P.show(ga[1]), P.show(ga[0])), where(body, gsd[0][0]))
     data_opt = ("ok", pv.def_term((gsd[0][0], "T")))
     nfound = 0
